@@ -86,6 +86,7 @@ Definition parse_descr (raw0 : str) (dnum : Z) (pre0 : str) (atom : option Z) : 
                   let ws := slice raw (Some (find (lit "|") raw)) (Some (rfind (lit "|") raw)) in
                   match map_opt py_float (split_ws (strip_chars (lit "|") ws)) with
                   | None => Err EValue "weight"
+                  | Some [] => Err ERuntime "empty weight specification"
                   | Some [w] => OK (w, None)
                   | Some l => OK (num_sum l, Some l)
                   end
